@@ -112,7 +112,7 @@ def step (s : S) (ws : List String) : S × String :=
           match m.inputs[i]? with
           | some (some ic) => (b.cbsOf ic).contains (.muxInput mi i)
           | _ => false
-        (s, s!"sel={match m.selected with | some j => toString j | none => "-1"} en={",".intercalate (en.map toString)}")
+        (s, s!"sel={match b.selOf mi with | some j => toString j | none => "-1"} en={",".intercalate (en.map toString)}")
       | none => (s, "err")
     | none => (s, "bad-op")
   | ["dirty"] => (s, " ".intercalate ("d" :: b.dirty.map toString))
